@@ -124,7 +124,7 @@ theorem updateFrom_NI2 (o : RenderOptions) (c₁ c₂ : Bool) :
 theorem callback_does_not_influence_rendering (env : Env) (fuel : Nat) (src : Str) (o : RenderOptions) (c₁ c₂ : Bool)
     (s₁ s₂ : Session) (h : mute s₁ = mute s₂) :
     Same ((apiRender env fuel src { o with callback := c₁ }).run s₁) ((apiRender env fuel src { o with callback := c₂ }).run s₂) := by
-  have hdoc := (mkRec_ni env fuel).2 src
+  have hdoc := (mkRec_ni env fuel).2 0 src
   have hpre : NI2 (Props.C04.apiPrefix { o with callback := c₁ }) (Props.C04.apiPrefix { o with callback := c₂ }) := by
     intro t₁ t₂ ht
     rw [apiPrefix_run, apiPrefix_run]
